@@ -206,6 +206,15 @@ class Gen:
                 st.fields.append(Field('_', r.choice([BYGO[t] for t in ('int8', 'int32', 'string', 'uint16', '[3]int16', 'bool')])))
             else:
                 st.fields.append(Field(fname(), r.choice(BASE), tag))
+        # a field of an embedded struct repeated (same name, same type) by the outer struct further down: selectors and
+        # reflect.FieldByName mean the shallow one, the unfolding lists the embedded one first
+        for f in list(st.fields):
+            if f.embedded and f.struct is not None and r.random() < 0.3:
+                inner = [g for g in f.struct.fields if g.struct is None and not g.embedded and g.name != '_' and g.name not in used]
+                if inner:
+                    g = r.choice(inner)
+                    used.add(g.name)
+                    st.fields.append(Field(g.name, g.ty, ''))
         if all(f.name == '_' for f in st.fields):
             st.fields.append(Field(fname(), r.choice(BASE)))
         self.structs.append(st)
@@ -917,6 +926,24 @@ func off[S any, F any](s *S, f *F) uintptr { return uintptr(unsafe.Pointer(f)) -
             self.w('\tif pn, _ := rt.Derive(func() { _ = optics.ForSpectrum1[%s, %s](%s) }); !pn {\n\t\trt.Accepted("C02", c, "the name resolves to a field of another type (Reflector)")\n\t}' % (S, T2, q(e2.key())))
             self.w('\tif pn, _ := rt.Derive(func() { _ = optics.ForShape2[%s, %s, %s](%s, %s) }); !pn {\n\t\trt.Accepted("C02", c, "the name resolves to a field of another type (Shape2, second focus)")\n\t}' % (S, e1.gotype(), T2, q(e1.key()), q(e2.key())))
             self.case_end('C02/%s/%s' % (S, req), True)
+        # the field's type is a named type of the package; the request names a function-local type of the same name
+        # (it prints alike, it is another type, of another size)
+        for e in L:
+            T = e.gotype()
+            if e.crossing or e.f.struct is not None or T not in ('MyStr', 'MyInt', 'MyF', 'MyI8', 'MyBytes') or not ok_name(e.key()) or self.resolve_name(L, e.key()) is not e:
+                continue
+            req = 'ForProduct1/ForSpectrum1[%s, <local type %s>](%s)' % (S, T, e.key())
+            self.case_begin('C02', 'local-lookalike/must-fail', st, req, 'panic: the field has the package-level type %s, the focus is a local type of the same name' % T)
+            self.w('\tbase := optics.ForProduct1[%s, %s](%s) // the valid derivation comes first\n\t_ = base' % (S, T, q(e.key())))
+            self.w('\ttype %s struct{ a, b, c, d uint64 }' % T)
+            self.w('\tvar l optics.Lens[%s, %s]' % (S, T))
+            self.w('\tif pn, _ := rt.Derive(func() { l = optics.ForProduct1[%s, %s](%s) }); !pn {' % (S, T, q(e.key())))
+            self.w('\t\trt.Accepted("C02", c, "lens: the focus type only prints like the field\'s type")')
+            self.w('\t\trt.UseBogus("C02", c, fill_%s, func(s *%s) { l.Get(s); l.Put(s, %s{1, 2, 3, 4}) })' % (S, S, T))
+            self.w('\t}')
+            self.w('\tif pn, _ := rt.Derive(func() { _ = optics.ForSpectrum1[%s, %s](%s) }); !pn {\n\t\trt.Accepted("C02", c, "reflector: the focus type only prints like the field\'s type")\n\t}' % (S, T, q(e.key())))
+            self.case_end('C02/%s/%s' % (S, req), True)
+            break
         fams = ['ForProduct', 'ForSpectrum', 'ForShape']
         crossing_neg = [n for n in neg if 'embedded pointer' in n[3]]
         other_neg = [n for n in neg if 'embedded pointer' not in n[3]]
@@ -1192,6 +1219,7 @@ func off[S any, F any](s *S, f *F) uintptr { return uintptr(unsafe.Pointer(f)) -
 	if common.Batch == 0 {
 		rt.MapLens()
 		rt.JoinHeads()
+		rt.JoinComputedMap()
 	}
 }''' % (len(self.structs), len(self.roots)))
 
